@@ -31,6 +31,12 @@ type IntervalAwareForceTicker struct {
 	lastTimedTick    time.Time
 	lastTimedTickMtx sync.Mutex
 
+	// resetMtx serialises Stop and the Reset functions, which tear down and
+	// re-create the internal ticker, quit channel and goroutine. It also
+	// guards the interval field. The ticker can be reset from more than
+	// one goroutine at a time.
+	resetMtx sync.Mutex
+
 	wg   sync.WaitGroup
 	quit chan struct{}
 }
@@ -129,6 +135,9 @@ func (t *IntervalAwareForceTicker) Pause() {
 //
 // NOTE: Part of the Ticker interface.
 func (t *IntervalAwareForceTicker) Stop() {
+	t.resetMtx.Lock()
+	defer t.resetMtx.Unlock()
+
 	t.Pause()
 	t.ticker.Stop()
 	close(t.quit)
@@ -138,6 +147,18 @@ func (t *IntervalAwareForceTicker) Stop() {
 // ResetWithInterval restarts the ticker with the given interval, causing the
 // next clock tick to occur in the given interval.
 func (t *IntervalAwareForceTicker) ResetWithInterval(newInterval time.Duration) {
+	t.resetMtx.Lock()
+	defer t.resetMtx.Unlock()
+
+	t.resetWithIntervalUnsafe(newInterval)
+}
+
+// resetWithIntervalUnsafe restarts the ticker with the given interval.
+//
+// NOTE: the resetMtx must be held when calling this function.
+func (t *IntervalAwareForceTicker) resetWithIntervalUnsafe(
+	newInterval time.Duration) {
+
 	// Shutdown the internal clock ticker without changing isActive.
 	t.ticker.Stop()
 	close(t.quit)
@@ -159,7 +180,10 @@ func (t *IntervalAwareForceTicker) ResetWithInterval(newInterval time.Duration) 
 // Reset restarts the ticker interval, causing the next clock tick to occur in
 // the configured interval.
 func (t *IntervalAwareForceTicker) Reset() {
-	t.ResetWithInterval(t.interval)
+	t.resetMtx.Lock()
+	defer t.resetMtx.Unlock()
+
+	t.resetWithIntervalUnsafe(t.interval)
 }
 
 // ForceTick force feeds an event into the ticker channel and resets the
@@ -183,7 +207,11 @@ func (t *IntervalAwareForceTicker) LastTimedTick() time.Time {
 // NextTickIn returns the approximate duration until the next timed tick will
 // occur.
 func (t *IntervalAwareForceTicker) NextTickIn() time.Duration {
-	nextTick := t.LastTimedTick().Add(t.interval)
+	t.resetMtx.Lock()
+	interval := t.interval
+	t.resetMtx.Unlock()
+
+	nextTick := t.LastTimedTick().Add(interval)
 	durationToNextTick := time.Until(nextTick)
 	if durationToNextTick < 0 {
 		return 0
